@@ -215,6 +215,14 @@ theorem cup_idempotent (s : Screen) (l c : Option Nat) :
       · simp [cursorPosition, hm, hd, hr, ensureVBounds, ensureHBounds, setCursorX, setCursorY]
     · simp [cursorPosition, hm, hd, ensureVBounds, ensureHBounds, setCursorX, setCursorY]
 
+/-- DECALN ; DECALN = DECALN: cells (text E, rendition kept), dirty set, everything else -/
+theorem decaln_idempotent (s : Screen) : alignmentDisplay (alignmentDisplay s) = alignmentDisplay s := by
+  simp only [alignmentDisplay, markAllDirty, markDirtyRange]
+  congr 1
+  · funext d; by_cases h : d < s.lines <;> simp [h]
+  · funext y x
+    by_cases h : (decide (y < s.lines) && decide (x < s.columns)) = true <;> simp_all
+
 /-- SO / SI: idempotent, last one wins, nothing but the active-set flag changes -/
 theorem so_si_laws (s : Screen) :
     shiftOut (shiftOut s) = shiftOut s ∧ shiftIn (shiftIn s) = shiftIn s ∧
